@@ -473,8 +473,13 @@ def run_impl(case):
         try:
             obs = _impl_obs(case, text + '\n')
         except Exception as e:
+            if out in ('tree', 'ParseException'):
+                # oal.parse copes with this very text: the exception comes from how the harness drives its own lexer
+                # object (built by text_input, see gen_oal_text.oal_lexer), not from the implementation
+                raise common.HarnessError('the harness-driven lexer raised %s: %s on %r, but oal.parse ends in %s on '
+                                          'the same text' % (type(e).__name__, str(e)[:200], short, out))
             fails.append({'sig': 'lexer-exception:%s' % type(e).__name__,
-                          'what': 'the lexer raised %s: %s on %r' % (type(e).__name__, str(e)[:100], short)})
+                          'what': 'the lexer raised %s: %s on %r (oal.parse: %s)' % (type(e).__name__, str(e)[:100], short, out)})
             obs = 'lexer-exception'
     if case['kind'] == 'grammar':
         obs = _ply_productions()
